@@ -105,7 +105,7 @@ def extra(rng, tier):
                 flat = gen.vals_q(rng, n * L)
                 q = rng.choice(gen.queries_q(rng, xs, 8, ext=ext))
             else:
-                xs = gen.axis_f(rng, n, rng.choice(["uniform", "geometric", "random", "evenish", "even", "even", "indexlike"]))
+                xs = gen.axis_f(rng, n, rng.choice(["uniform", "geometric", "random", "evenish", "even", "even", "indexlike", "tail"]))
                 flat = [rng.uniform(-9, 9) for _ in range(n * L)]
                 span = xs[-1] - xs[0]
                 kq = xs[rng.randrange(n)]
